@@ -517,6 +517,33 @@ func runC12(c *core.Ctx) {
 			}
 		}
 	})
+	// every way a context can end x (unattainable | easy) target x worker counts: whatever comes back without an error
+	// must meet the target; with the unattainable target that means an error must come back
+	for _, k := range powCtxKinds() {
+		for _, workers := range []int{1, 4} {
+			for _, t := range []uint64{1 << 56, 3} {
+				data := []byte("ctx:" + k.Name)
+				ctx, cancel := k.Make()
+				var nonce uint64
+				var err error
+				p := core.Catch(func() { nonce, err = powv2.New(workers).Mine(ctx, data, t) })
+				cancel()
+				c.Eval(1)
+				nontriv.Add(1)
+				cas := map[string]interface{}{"context": k.Name, "workers": workers, "target": t}
+				if p != nil {
+					c.Violate("C12/context/panic", fmt.Sprintf("context %s: Mine panics: %v", k.Name, p), cas, "", nil)
+					continue
+				}
+				if err != nil {
+					continue
+				}
+				if sc := refScoreV2FromHash(refPowHashV2(data, nonce), len(data)+8); sc < t {
+					c.Violate("C12/context/unsound", fmt.Sprintf("context %s, %d workers: Mine returned nonce %d without error; its score %d is below the target %d", k.Name, workers, nonce, sc, t), cas, "", nil)
+				}
+			}
+		}
+	}
 	// worker counts: none given, zero, negative, more goroutines than lanes and than cores; target 0 and 1; nil data
 	{
 		data := []byte("worker counts")
